@@ -22,6 +22,21 @@ claim(
     "DESIGN.md §3 C01",
 )
 
+claim(
+    "C02",
+    "Hypothesis property-based testing with forced angle stratification: M(exp x) vs an independent matrix exponential (scipy / mpmath 50 digits) of the algebra matrix; exp(-x), one-parameter subgroup and exp(0) laws",
+    "Exploration: for every (algebra, target group) incl. all SO(3) parameterisations and direct sums, generated algebra vectors with the rotation angle forced through every stratum (0, denormal, tiny, both sides of each series switch to the ulp, mid, near pi, pi, beyond pi, near a gimbal pole) are exponentiated and compared with expm(hat(x)); plus metamorphic laws. Sampled, not exhaustive.",
+    "Trusts scipy.linalg.expm (quick) and the mpmath Taylor scaling-and-squaring exponential written in vlib/ref.py (thorough); hat(x) is cyecca's own algebra to_Matrix, as the property states. Angles < 2pi-0.05.",
+    "DESIGN.md §3 C02",
+)
+claim(
+    "C03",
+    "Hypothesis property-based testing: exp(log X)=X and log(exp x)=x round trips, principal-log oracle (logm + atan2 rotation log), cross-representation differential of log",
+    "Exploration: generated elements of every group/representation (negative-scalar quaternions, shadow MRPs, DCM, Euler) at least 1e-2 rad away from pi; round trips compared as matrices / vectors; the principal cell compares with vee(logm(M(X))) and a harness-side principal rotation log; the crossrep cells encode one rotation into all representations and compare the logs pairwise and with axis*angle.",
+    "Trusts scipy.linalg.logm / mpmath.logm and the harness encoders. Tolerances scale with 1/(pi-angle) and 1+|translations|.",
+    "DESIGN.md §3 C03",
+)
+
 NOT_YET = "check not built yet in this round (work in progress; see DESIGN.md)"
 
 
